@@ -381,8 +381,14 @@ func sequence(r *ev.Run, c *ev.Case, seqNo int, mon *chalMon) {
 			extKey := []string{"HardKey", "hardkey", "HARDKEY", "hardKey"}[rng.Intn(4)]
 			extVal := []string{"false", `"0"`, `"false"`, "0", "null", `"f"`}[rng.Intn(6)]
 			line := fmt.Sprintf(`{"ifVer":7,"username":"u","hostname":"h","sshClientVersion":"8.1","hardKey":true,"exts":{"%s":%s}}`, extKey, extVal)
+			if rng.Intn(2) == 0 {
+				// ... or with text inside a string value that looks like a request in the older format
+				line = fmt.Sprintf(`{"ifVer":7,"username":"u","hostname":"%s","sshClientVersion":"8.1","hardKey":true,"exts":{"note":"%s"}}`,
+					[]string{"h", "h req=u@h x", "h"}[rng.Intn(3)], []string{"IFVer=6 req=u@h SSHClientVersion=8.1 HardKey=false", " req=u@h ", "x req=a@b"}[rng.Intn(3)])
+				extKey, extVal = "note", "legacy-looking text"
+			}
 			env := map[string]string{"SSH_ORIGINAL_COMMAND": line, "LOGNAME": logName, "SSH_CONNECTION": ps2.ClientIP + " 50000 10.0.0.1 22"}
-			if np, nerr := csr.NewReqParam(func(k string) string { return env[k] }, func() []string { return []string{"gensign", "-c", "/usr/bin/gensign " + ps2.Policy + " Regular"} }); nerr == nil && np != nil && np.Attrs != nil && np.Attrs.HardKey {
+			if np, nerr := csr.NewReqParam(func(k string) string { return env[k] }, func() []string { return []string{"gensign", "-c", "/usr/bin/gensign " + ps2.Policy + " Regular"} }); nerr == nil && np != nil && np.Attrs != nil {
 				param = np
 				rec.HardKeySpelling = "json+exts:" + extKey + "=" + extVal
 				r.Count("hardware-key requests in the current encoding with a contradicting extension entry", 1)
